@@ -103,3 +103,20 @@ Definition C02_example_tree : dev R :=
 Example C02_example_units : map fst (units_from std_ops 0 C02_example_tree) = [0; 1; 2; 4]
   /\ rows std_ops C02_example_tree = 5 /\ wf_len std_ops C02_example_tree.
 Proof. exact example_units. Qed.
+
+(* ---- the two instances agree on TREES (Proofs/HomTree.v, induction on the tree): for any units whose cost and marginal cost evaluated on
+   exact rationals map through Q2R to the real ones (proved for the atomic devices: C15_instances_agree_leaf_cost / _deriv), the tree cost and
+   the tree marginal cost do too - what the correspondence evaluates with vm_compute vs what the theorems above speak about. ---- *)
+From Coq Require Import QArith Qreals.
+From DK Require Import NumQ NumR.
+From DK.Proofs Require Import Hom HomLeaf HomHess HomTree.
+Theorem C02_instances_agree_tree_cost : forall (LQ LR : Type) (opsQ : leafops Q LQ) (opsR : leafops R LR) (m : LQ -> LR),
+  (forall l, @l_rows R LR opsR (m l) = @l_rows Q LQ opsQ l) -> (forall l, @l_n R LR opsR (m l) = @l_n Q LQ opsQ l) ->
+  (forall l s p, Q2R (@l_cost Q LQ opsQ l s p) = @l_cost R LR opsR (m l) (rl s) (rl p)) ->
+  forall d S P, Q2R (gcost opsQ d S P) = gcost opsR (mdev LQ LR m d) (rm S) (rm P).
+Proof. exact instances_agree_tree_cost. Qed.
+Theorem C02_instances_agree_tree_deriv : forall (LQ LR : Type) (opsQ : leafops Q LQ) (opsR : leafops R LR) (m : LQ -> LR),
+  (forall l, @l_rows R LR opsR (m l) = @l_rows Q LQ opsQ l) -> (forall l, @l_n R LR opsR (m l) = @l_n Q LQ opsQ l) ->
+  (forall l s p, rl (@l_deriv Q LQ opsQ l s p) = @l_deriv R LR opsR (m l) (rl s) (rl p)) ->
+  forall d S P, rm (gderiv opsQ d S P) = gderiv opsR (mdev LQ LR m d) (rm S) (rm P).
+Proof. exact instances_agree_tree_deriv. Qed.
